@@ -1,4 +1,4 @@
-import QibProofs.Lemmas.PauliMat
+import QibProofs.Lemmas.FermiTens
 /-!
 Core D / C10, Mathlib side: the Jordan–Wigner reference ladder matrices in bit-function indexing and their algebra.
 
@@ -13,7 +13,6 @@ Helper lemmas only; the property statements are in `Properties/C10.lean`.
 
 open Complex Matrix
 namespace Qib.Fermi
-open Qib.Pauli (tens tens_mul tens_smul tens_conjTranspose tens_one pauliZ)
 
 noncomputable section
 
